@@ -37,6 +37,7 @@ RULE += (' Also: transient failures in re-entrant histories (the first-started r
 RULE += (' Also: a cache stacked on a cache against two functools layers (clears of either layer, direct calls of the inner one).')
 RULE += (' Also: a keyword of one call as positional (name, value) tuple of another; keyword order permutations.')
 RULE += (' Also: cached functions failing with BaseExceptions that are no Exceptions (aborts, CancelledError): a counted miss that caches nothing.')
+RULE += (' Also: the caller modifies what cache_parameters() handed out; the cache keeps the parameters it was created with.')
 ASSUMPTIONS = ["functools.lru_cache (C implementation of the running 3.12 interpreter) is the reference",
                "cache_discard has no stdlib twin: reference is the cross-validated model"]
 EXHAUSTIVE_SUBSPACES = 'all histories of length <= 4 (thorough: 5) over 7 operations for maxsize 1 and 2'
@@ -677,9 +678,20 @@ def run_case(case, stats: Counter):
             special = True
             stats["discards"] += 1
         elif name == "params":
-            pa, ps = dict(env["a"][4]()), dict(env["s"][4]())
+            ra, rs = env["a"][4](), env["s"][4]()
+            pa, ps = dict(ra), dict(rs)
             if pa != ps:
                 viols.append({"key": "lru_cache/cache_parameters", "msg": f"{head}: cache_parameters {pa} vs functools {ps}"})
+            # what the query hands out is the caller's to scribble on (a report that adds its own fields, a merge of
+            # settings): the cache goes on with the parameters it was created with
+            for report in (ra, rs):
+                try:
+                    report["maxsize"] = 1 if report.get("maxsize") != 1 else 7
+                    report["typed"] = not report.get("typed")
+                    report["note"] = "scribbled on by the caller"
+                except TypeError:
+                    pass  # (a read-only mapping would be fine, too)
+            stats["parameter_reports_scribbled_on"] += 1
         ia = tuple(env["a"][1]())
         im = tuple(env["m"][1]())
         is_ = tuple(env["s"][1]())
